@@ -35,7 +35,7 @@ def classify(ctx: HandlerContext) -> Classification:
             continue
         i += 1
 
-    if output_file:
+    if output_file and output_file != "-":  # "-" is standard output
         return Classification(
             "allow",
             description="iconv -o",
